@@ -197,8 +197,9 @@ pub fn run(out: &mut Out, tier: &str, rng: &mut Rng) {
                     };
                     let mut txt = vec!["*".to_string(); 4];
                     txt[field as usize] = v.to_string();
-                    for accept in [true, false] {
-                        let mut f = if accept { Filter::accept() } else { Filter::reject() };
+                    for (accept, dflt) in [(true, false), (true, true), (false, false)] {
+                        // `Filter::default()` is an accept list
+                        let mut f = if dflt { Filter::default() } else if accept { Filter::accept() } else { Filter::reject() };
                         f.push(it);
                         let r = f.matches(&id);
                         out.count(&format!("flt ctor {}", if ctor { "with" } else { "set" }));
